@@ -367,6 +367,8 @@ class SimRNG(np.random.RandomState):
             return self._opaque('permutation', super(SimRNG, self).permutation, x)
         n = int(x)
         base = super(SimRNG, self).permutation
+        if n <= 0:
+            return base(n)  # what the real generator does with a non-positive count (an empty permutation): nothing to steer
 
         def cast(v):
             v = np.asarray(v, dtype=np.int64)
